@@ -707,6 +707,17 @@ class ExprMixin:
                 if ca.is_const() and cb.is_const() and 0 <= cb.c <= 64:
                     return IntV(ca.c ** cb.c, tags)
                 return self._opaque_int('power', node, tags)
+            if isinstance(op, (ast.FloorDiv, ast.Mod, ast.Div)):
+                # a divisor that may be zero: ZeroDivisionError (effect table)
+                if cb.is_const() and cb.c == 0:
+                    raise Raised(ExcV(ZeroDivisionError, [], node=node, stack=self.stack, op='division by zero', definite=True))
+                if not cb.is_const() and not self.store.prove_ge0(cb - 1) and not self.store.prove_ge0(-cb - 1):
+                    try:
+                        self.may_raise(ZeroDivisionError, node, f'division by {self.store.canon(cb)}, which may be zero',
+                                       wire='wire' in tags)
+                    except Raised:
+                        self.store.assume_eq0(cb)
+                        raise
             if isinstance(op, ast.FloorDiv):
                 if ca.is_const() and cb.is_const() and cb.c != 0:
                     return IntV(ca.c // cb.c, tags)
